@@ -1,5 +1,174 @@
 //! Conformance tests for the trusted specification layer (specs/prelude.rs): every assumed
-//! `toks()` fact is checked against the real value built with the real crates.
+//! `toks()` / `pseq` / constructor fact is checked against the real value built with the real
+//! syn / quote / proc-macro2. This is testing of assumptions (reported as facts checked /
+//! failed), not proof.
 use super::*;
+use quote::ToTokens;
 
-pub fn run() -> (u64, Vec<String>) { (0, vec![]) }
+#[derive(Debug, Clone, PartialEq, Eq)]
+pub enum Tok {
+    Ident(String),
+    Punct(String),
+    Lifetime(String),
+    Lit(String),
+    Group(Delimiter2, Vec<Tok>),
+}
+
+#[derive(Debug, Clone, Copy, PartialEq, Eq)]
+pub enum Delimiter2 {
+    Paren,
+    Bracket,
+    Brace,
+    NoDelim,
+}
+
+/// the abstraction function `tv` of the prelude, made executable: joint punctuation is glued
+/// (`::`, `->`), `'` + identifier is one lifetime token, spans are dropped
+pub fn tok_abs(t: &TokenStream) -> Vec<Tok> {
+    let v: Vec<TokenTree> = t.clone().into_iter().collect();
+    let mut out = vec![];
+    let mut i = 0;
+    while i < v.len() {
+        match &v[i] {
+            TokenTree::Ident(id) => out.push(Tok::Ident(id.to_string())),
+            TokenTree::Literal(l) => out.push(Tok::Lit(l.to_string())),
+            TokenTree::Group(g) => {
+                let d = match g.delimiter() {
+                    Delimiter::Parenthesis => Delimiter2::Paren,
+                    Delimiter::Bracket => Delimiter2::Bracket,
+                    Delimiter::Brace => Delimiter2::Brace,
+                    Delimiter::None => Delimiter2::NoDelim,
+                };
+                out.push(Tok::Group(d, tok_abs(&g.stream())));
+            }
+            TokenTree::Punct(p) => {
+                if p.as_char() == '\'' {
+                    if let Some(TokenTree::Ident(id)) = v.get(i + 1) {
+                        out.push(Tok::Lifetime(format!("'{}", id)));
+                        i += 2;
+                        continue;
+                    }
+                }
+                let mut s = String::new();
+                s.push(p.as_char());
+                let mut joint = p.spacing() == proc_macro2::Spacing::Joint;
+                while joint {
+                    match v.get(i + 1) {
+                        Some(TokenTree::Punct(q)) if q.as_char() != '\'' => {
+                            s.push(q.as_char());
+                            joint = q.spacing() == proc_macro2::Spacing::Joint;
+                            i += 1;
+                        }
+                        _ => break,
+                    }
+                }
+                out.push(Tok::Punct(s));
+            }
+        }
+        i += 1;
+    }
+    out
+}
+
+fn of<T: ToTokens>(x: &T) -> Vec<Tok> {
+    tok_abs(&x.to_token_stream())
+}
+fn pu(s: &str) -> Vec<Tok> {
+    vec![Tok::Punct(s.into())]
+}
+fn id(s: &str) -> Vec<Tok> {
+    vec![Tok::Ident(s.into())]
+}
+
+pub fn run() -> (u64, Vec<String>) {
+    let mut n = 0u64;
+    let mut bad: Vec<String> = vec![];
+    let mut fact = |name: &str, ok: bool| {
+        n += 1;
+        if !ok {
+            bad.push(name.to_string());
+        }
+    };
+    let sp = proc_macro2::Span::call_site();
+    macro_rules! punct {
+        ($($t:ident => $s:literal),*) => { $(
+            fact(concat!("toks(", stringify!($t), "(span))"), of(&syn::token::$t(sp)) == pu($s));
+            fact(concat!("toks(", stringify!($t), "::default())"), of(&syn::token::$t::default()) == pu($s));
+        )* };
+    }
+    punct!(Comma => ",", Colon => ":", Plus => "+", Lt => "<", Gt => ">", Eq => "=", Pound => "#", Dot => ".", Semi => ";", And => "&", Question => "?", PathSep => "::", RArrow => "->");
+    macro_rules! kw {
+        ($($t:ident => $s:literal),*) => { $(
+            fact(concat!("toks(", stringify!($t), "(span))"), of(&syn::token::$t(sp)) == id($s));
+            fact(concat!("toks(", stringify!($t), "::default())"), of(&syn::token::$t::default()) == id($s));
+        )* };
+    }
+    kw!(Where => "where", SelfType => "Self", SelfValue => "self", Await => "await", Async => "async", Move => "move", Dyn => "dyn", Pub => "pub", Super => "super",
+        Unsafe => "unsafe", Const => "const", Fn => "fn", Mut => "mut", Impl => "impl", For => "for", Trait => "trait", Mod => "mod", Auto => "auto", Ref => "ref");
+    fact("toks(Underscore)", of(&syn::token::Underscore(sp)) == id("_"));
+    fact("Ident::new", of(&syn::Ident::new("cfg_attr", sp)) == id("cfg_attr"));
+    fact("Ident::clone", of(&syn::Ident::new("x", sp).clone()) == id("x"));
+    fact("LitBool::new(false)", of(&syn::LitBool::new(false, sp)) == id("false"));
+    fact("LitBool::new(true)", of(&syn::LitBool::new(true, sp)) == id("true"));
+    fact("Lifetime::new", of(&syn::Lifetime::new("'static", sp)) == vec![Tok::Lifetime("'static".into())]);
+    fact("TokenStream::new", tok_abs(&TokenStream::new()).is_empty());
+    // containers
+    let x = syn::Ident::new("x", sp);
+    fact("toks(&T)", of(&&x) == id("x"));
+    fact("toks(Box<T>)", of(&Box::new(x.clone())) == id("x"));
+    fact("toks(Some(T))", of(&Some(x.clone())) == id("x"));
+    fact("toks(None)", of(&Option::<syn::Ident>::None).is_empty());
+    fact("toks(TokenStream)", of(&ts("a :: b")) == vec![Tok::Ident("a".into()), Tok::Punct("::".into()), Tok::Ident("b".into())]);
+    // to_tokens appends
+    {
+        let mut s = ts("a b");
+        x.to_tokens(&mut s);
+        syn::token::Comma(sp).to_tokens(&mut s);
+        fact("to_tokens appends", tok_abs(&s) == vec![Tok::Ident("a".into()), Tok::Ident("b".into()), Tok::Ident("x".into()), Tok::Punct(",".into())]);
+    }
+    // surround
+    {
+        let mut s = ts("pre");
+        syn::token::Bracket::default().surround(&mut s, |s| {
+            x.to_tokens(s);
+            syn::token::Comma::default().to_tokens(s);
+        });
+        fact("Bracket::surround", tok_abs(&s) == vec![Tok::Ident("pre".into()), Tok::Group(Delimiter2::Bracket, vec![Tok::Ident("x".into()), Tok::Punct(",".into())])]);
+        let mut s = TokenStream::new();
+        syn::token::Paren(sp).surround(&mut s, |_| {});
+        fact("Paren::surround (empty)", tok_abs(&s) == vec![Tok::Group(Delimiter2::Paren, vec![])]);
+        let mut s = TokenStream::new();
+        syn::token::Brace::default().surround(&mut s, |s| x.to_tokens(s));
+        fact("Brace::surround", tok_abs(&s) == vec![Tok::Group(Delimiter2::Brace, vec![Tok::Ident("x".into())])]);
+    }
+    // Punctuated: first / len / is_empty / iter / pairs / into_iter and the token content of a pair
+    for src in ["", "A", "A,", "A, B", "A, B,", "A, B, C"] {
+        let p: syn::punctuated::Punctuated<syn::Ident, syn::token::Comma> = syn::parse::Parser::parse_str(syn::punctuated::Punctuated::parse_terminated, src).unwrap();
+        let vals: Vec<String> = p.iter().map(|i| i.to_string()).collect();
+        let want: Vec<String> = src.split(',').map(|s| s.trim().to_string()).filter(|s| !s.is_empty()).collect();
+        fact(&format!("Punctuated::iter `{}`", src), vals == want);
+        fact(&format!("Punctuated::len `{}`", src), p.len() == want.len());
+        fact(&format!("Punctuated::is_empty `{}`", src), p.is_empty() == want.is_empty());
+        fact(&format!("Punctuated::first `{}`", src), p.first().map(|i| i.to_string()) == want.first().cloned());
+        fact(&format!("&Punctuated::into_iter `{}`", src), (&p).into_iter().map(|i| i.to_string()).collect::<Vec<_>>() == want);
+        let trailing = p.trailing_punct();
+        let n_ = p.len();
+        for (i, pair) in p.pairs().enumerate() {
+            fact(&format!("Pairs value `{}`[{}]", src, i), pair.value().to_string() == want[i]);
+            let is_punct = matches!(pair, syn::punctuated::Pair::Punctuated(..));
+            fact(&format!("Pairs punctuated `{}`[{}]", src, i), is_punct == (i + 1 < n_ || trailing));
+            let mut exp = id(&want[i]);
+            if is_punct {
+                exp.extend(pu(","));
+            }
+            fact(&format!("toks(Pair) `{}`[{}]", src, i), of(&pair) == exp);
+        }
+    }
+    // visibility
+    fact("toks(Visibility::Inherited)", of(&syn::Visibility::Inherited).is_empty());
+    fact("toks(Visibility::Public)", of(&syn::parse_str::<syn::Visibility>("pub").unwrap()) == id("pub"));
+    // errors
+    fact("Error::new message", syn::Error::new(sp, "Unsupported option").to_string() == "Unsupported option");
+    fact("Box::as_ref", *Box::new(3u8).as_ref() == 3u8);
+    (n, bad)
+}
